@@ -32,6 +32,12 @@ MkReq(scheme, host, path, alias, src) ==
    scheme |-> scheme, alias |-> alias, src |-> Chars(src),
    tp |-> src = "" \/ RegDomain(Chars(src)) # RegDomain(h)]
 
+\* a URL without an authority ('data:text/plain,ab'): it has no host, it can only be handed to the engine as a
+\* pre-parsed request, and its scheme is never one of the supported ones
+MkReqOpaque(scheme, rest, alias, src) ==
+  [url |-> Chars(scheme) \o <<":">> \o Chars(rest), hs |-> Len(Chars(scheme)) + 2, he |-> Len(Chars(scheme)) + 1,
+   scheme |-> scheme, alias |-> alias, src |-> Chars(src), tp |-> TRUE]
+
 B(s) == Chars(s)
 
 --------------------------------------------------------------------------
@@ -70,7 +76,8 @@ AliasesC03 == IF Big
 ReqsC03 == SetToSeqD(
   { MkReq(sc, "ab.com", "/ab?ab=1", al, src) :
       sc \in {"https", "http", "ws", "wss", "ftp"}, al \in AliasesC03,
-      src \in {"ab.com", "a.com", "s.a.com", "x.s.a.com", "b.com", ""} })
+      src \in {"ab.com", "a.com", "s.a.com", "x.s.a.com", "b.com", ""} }
+  \cup { MkReqOpaque(sc, "text/ab,ab.com/ab?ab=1", al, src) : sc \in {"data", "blob"}, al \in {"script", "image", "document"}, src \in {"ab.com", ""} })
 
 --------------------------------------------------------------------------
 \* universe c01: token-boundary, precedence, tags, badfilter
